@@ -32,30 +32,33 @@ DefPool == <<
   Node("FUNCDEF", <<Node("ARGS", <<Node("ARG", <<La, Node("BOOLEAN", <<G1("X1")>>)>>)>>), Node("SET_MINUS", <<G1("X1"), La>>)>>),   \* 19 [a in B(X1)] X1 \ a
   Node("FUNCDEF", <<Node("ARGS", <<Node("ARG", <<La, Node("BOOLEAN", <<G1("X1")>>)>>)>>), Node("ENUM", <<La>>)>>),                  \* 20 [a in B(X1)] {a} (another typification)
   Call("F1", <<G1("D1")>>),                                                               \* 21
-  Call("F1", <<Node("SET_MINUS", <<G1("X1"), G1("X1")>>)>>)                               \* 22 F1 of the empty set
+  Call("F1", <<Node("SET_MINUS", <<G1("X1"), G1("X1")>>)>>),                              \* 22 F1 of the empty set
+  Node("BOOLEAN", <<G1("X2")>>),                                                          \* 23 structure domain over a base set that may not exist (yet)
+  G1("S1")                                                                                \* 24 the structure's data
 >>
 Toks(d) == IF d = NoDef THEN <<>> ELSE Render(d, FALSE).t
 Fresh1 == CHOOSE u \in 1..(MaxCst + 6) : u \notin Ids /\ \A v \in 1..(MaxCst + 6) : v \notin Ids => u <= v
 
 \* presets: "terms" (definitions over X1, D1, D2), "struct" (structure S1 with data and projections of it),
 \* "late" (D1 := X2 is defined before the base set X2 exists; base sets are inserted and erased during the history)
+\* "lates" (as "late", and a structure S1 : B(X2) is created before or after X2, given data, X2 erased and created again)
 \* "func" (a term-function F1 whose body is edited while terms that call it, directly or through another term, are calculated)
-TermDefs == CASE Preset = "struct" -> {2, 3, 9, 14} [] Preset = "late" -> {3, 15, 16} [] Preset = "func" -> {2, 18, 21, 22} [] OTHER -> {2, 3, 4, 5, 6, 7, 8, 13}
-EditDefs == CASE Preset = "struct" -> {2, 9, 14} [] Preset = "late" -> {2, 15, 16} [] Preset = "func" -> {2, 18, 21} [] OTHER -> {2, 3, 4, 5, 6, 8, 13}
+TermDefs == CASE Preset = "struct" -> {2, 3, 9, 14} [] Preset = "late" -> {3, 15, 16} [] Preset = "lates" -> {24} [] Preset = "func" -> {2, 18, 21, 22} [] OTHER -> {2, 3, 4, 5, 6, 7, 8, 13}
+EditDefs == CASE Preset = "struct" -> {2, 9, 14} [] Preset = "late" -> {2, 15, 16} [] Preset = "lates" -> {} [] Preset = "func" -> {2, 18, 21} [] OTHER -> {2, 3, 4, 5, 6, 8, 13}
 FuncEditDefs == IF Preset = "func" THEN {17, 19, 20} ELSE {}
 \* (incl. same-size replacements that differ only in an interior key: {1,2,4} / {1,3,4})
-KeySets == IF Preset \in {"struct", "late", "func"} THEN {{1}, {1, 3}, {2, 3}} ELSE (SUBSET {1, 2, 3}) \cup {{1, 2, 4}, {1, 3, 4}}
+KeySets == IF Preset = "lates" THEN {{1}, {1, 2}} ELSE IF Preset \in {"struct", "late", "func"} THEN {{1}, {1, 3}, {2, 3}} ELSE (SUBSET {1, 2, 3}) \cup {{1, 2, 4}, {1, 3, 4}}
 \* data offered to the structure S1 : B(X1*X1)
-DataPool == {{}, {<<1, 1>>, <<1, 2>>}, {<<2, 1>>}, {<<1, 3>>, <<3, 3>>}}
+DataPool == IF Preset = "lates" THEN {{1}, {1, 2}} ELSE {{}, {<<1, 1>>, <<1, 2>>}, {<<2, 1>>}, {<<1, 3>>, <<3, 3>>}}
 
 Op(o) == [op |-> o, u |-> 0, k |-> "", fresh |-> 0, d |-> <<>>, hasdef |-> FALSE, ks |-> <<>>, data |-> <<>>]
 Step(A, rec) == A /\ hist' = Append(hist, rec)
-EncPairs(S) == SetToSeq({<<p[1], p[2]>> : p \in S})
+EncPairs(S) == IF Preset = "lates" THEN SetToSeq(S) ELSE SetToSeq({<<p[1], p[2]>> : p \in S})
 
 \* the start model: X1 = {1, 2}; S1 : B(X1*X1) with two pairs (struct preset); D1 := X1; D2 := D1
 Start ==
   /\ order = IF Preset \in {"struct", "func"} THEN <<1, 2, 3, 4>> ELSE <<1, 3, 4>>
-  /\ cst = (1 :> NewRec("X1", "base", NoDef)) @@ (3 :> NewRec("D1", "term", DefPool[CASE Preset = "late" -> 15 [] Preset = "func" -> 18 [] OTHER -> 2])) @@ (4 :> NewRec("D2", "term", DefPool[3]))
+  /\ cst = (1 :> NewRec("X1", "base", NoDef)) @@ (3 :> NewRec("D1", "term", DefPool[CASE Preset \in {"late", "lates"} -> 15 [] Preset = "func" -> 18 [] OTHER -> 2])) @@ (4 :> NewRec("D2", "term", DefPool[3]))
            @@ (IF Preset = "struct" THEN (2 :> NewRec("S1", "structured", DefPool[11])) ELSE <<>>)
            @@ (IF Preset = "func" THEN (2 :> NewRec("F1", "function", DefPool[17])) ELSE <<>>)
   /\ trk = <<>>
@@ -67,11 +70,13 @@ Next ==
   /\ Len(hist) < MaxLen
   /\ \/ /\ Cardinality(Ids) < MaxCst
         /\ \E i \in TermDefs : Step(MEmplace("term", DefPool[i], Fresh1), [Op("Emplace") EXCEPT !.k = "term", !.d = Toks(DefPool[i]), !.hasdef = TRUE, !.fresh = Fresh1])
-     \/ /\ Cardinality(Ids) < MaxCst /\ Preset = "late"
+     \/ /\ Cardinality(Ids) < MaxCst /\ Preset \in {"late", "lates"}
         /\ Step(MEmplace("base", NoDef, Fresh1), [Op("Emplace") EXCEPT !.k = "base", !.fresh = Fresh1])
+     \/ /\ Cardinality(Ids) < MaxCst /\ Preset = "lates" /\ StructIds = {}
+        /\ Step(MEmplace("structured", DefPool[23], Fresh1), [Op("Emplace") EXCEPT !.k = "structured", !.d = Toks(DefPool[23]), !.hasdef = TRUE, !.fresh = Fresh1])
      \/ /\ Cardinality(Ids) < MaxCst /\ Preset = "terms"
         /\ Step(MEmplace("axiom", DefPool[10], Fresh1), [Op("Emplace") EXCEPT !.k = "axiom", !.d = Toks(DefPool[10]), !.hasdef = TRUE, !.fresh = Fresh1])
-     \/ \E u \in Ids : (cst[u].kind \notin {"base", "function"} \/ (Preset = "late" /\ u # 1)) /\ Step(MErase(u), [Op("Erase") EXCEPT !.u = u])
+     \/ \E u \in Ids : (cst[u].kind \notin {"base", "function"} \/ (Preset \in {"late", "lates"} /\ u # 1)) /\ Step(MErase(u), [Op("Erase") EXCEPT !.u = u])
      \/ \E u \in Ids, i \in EditDefs : cst[u].kind \in {"term"} /\ Step(MSetExpression(u, DefPool[i]), [Op("SetExpression") EXCEPT !.u = u, !.d = Toks(DefPool[i]), !.hasdef = TRUE])
      \/ \E u \in Ids, i \in FuncEditDefs : cst[u].kind = "function" /\ Step(MSetExpression(u, DefPool[i]), [Op("SetExpression") EXCEPT !.u = u, !.d = Toks(DefPool[i]), !.hasdef = TRUE])
      \/ \E u \in BaseIds : Cardinality(keys[u]) < 3 /\ Step(AddBasicElement(u), [Op("AddBasicElement") EXCEPT !.u = u])
